@@ -11,7 +11,7 @@ import math
 from typing import Any, Optional, SupportsInt, Union
 
 from elementpath.aliases import XPath2ParserType
-from elementpath.helpers import FloatArgType, NUMERIC_INF_OR_NAN, INVALID_NUMERIC, \
+from elementpath.helpers import FloatArgType, NUMERIC_INF_OR_NAN, \
     LazyPattern, collapse_white_spaces
 from .any_types import AnyAtomicType
 
@@ -24,7 +24,7 @@ __all__ = ['Float', 'Float10', 'Integer', 'Int', 'Long',
 class Float(float, AnyAtomicType):
     name = 'float'
     pattern = LazyPattern(
-        r'^(?:[+-]?(?:[0-9]+(?:\.[0-9]*)?|\.[0-9]+)(?:[Ee][+-]?[0-9]+)? |[+-]?INF|NaN)$'
+        r'^(?:[+-]?(?:[0-9]+(?:\.[0-9]*)?|\.[0-9]+)(?:[Ee][+-]?[0-9]+)?|[+-]?INF|NaN)$'
     )
 
     @classmethod
@@ -50,7 +50,8 @@ class Float(float, AnyAtomicType):
                         return float_nan
                     except NameError:
                         pass
-            elif value.lower() in INVALID_NUMERIC:
+            elif cls.pattern.match(value) is None:
+                # Python accepts other forms (e.g. underscores, non-ASCII digits)
                 raise cls._invalid_value(value)
         elif math.isnan(value):
             try:
@@ -184,6 +185,14 @@ class Integer(int, AnyAtomicType):
 
     _lower_bound: Optional[int] = None
     _higher_bound: Optional[int] = None
+
+    def __new__(cls, value: Union[str, SupportsInt]) -> 'Integer':
+        if isinstance(value, str):
+            # Python accepts other forms (e.g. underscores, non-ASCII digits)
+            value = collapse_white_spaces(value)
+            if cls.pattern.match(value) is None:
+                raise cls._invalid_value(value)
+        return super().__new__(cls, value)
 
     def __init__(self, value: Union[str, SupportsInt]) -> None:
         """
